@@ -4,7 +4,7 @@ Three layers (design.d/C07.md):
  1. theorems (props/C07.v): the SELECT produced by the planner model (model/LogqlPlan.v), evaluated by
     the ClickHouse-subset semantics (model/SqlEval.v, trusted), is the reference answer of
     model/LogqlSem.v - for every query of the fragment, every context, every database satisfying db_ok,
-    under the two guards the code needs (absent labels: defect #16; at most 8 matchers: UInt8 bitmask);
+    under the guards the code needs (absent labels: defect #16; at most 63 matchers: UInt64 bitmask);
     the unguarded statement is refuted by vm_compute witnesses.
  2. planner text: checks/sqltext.run_logql - render(process(plan ast) ctx) = the SQL of the real Go
     planners, byte for byte (OCaml extraction).
@@ -27,7 +27,7 @@ from checks import sqltext
 ROOT = os.path.dirname(os.path.dirname(os.path.abspath(__file__)))
 
 FINDING_ABSENT = "absent-label-matcher"
-FINDING_WIDTH = "more-than-8-matchers"
+FINDING_WIDTH = "more-than-63-matchers"    # not a recorded finding (the generator stays below): a hit is a violation
 FINDING_ORACLE = "oracle-disagreement"      # not a recorded finding: a hit is reported as a violation
 
 
@@ -240,7 +240,7 @@ def run_semantic(ck, text_cases):
             rep = {"property": "C07", "kind": "the SQL of the implementation does not return the reference answer",
                    "query": c["query"], "ctx": c["ctx"], "db": db, "expected": d.get("want"), "got": d.get("got"),
                    "expected_is": "every matching line (model/LogqlSem.v log_rows); with ctx.limit = L > 0 the answer must be some top-L subset of it in the query direction",
-                   "sql": c["sql"][0], "guards": {"width<=8": v["width"], "absent_guard": d["absent"], "oracle_ok": d["oracle"]},
+                   "sql": c["sql"][0], "guards": {"width<=63": v["width"], "absent_guard": d["absent"], "oracle_ok": d["oracle"]},
                    "same_as_model": d["same"], "origin": origin.get(cid),
                    "replay": "harness logqlsql --cases <query,ctx> gives the SQL; evaluate it over db (model/SqlEval.v) or on a ClickHouse with these rows"}
             if guards or not d["same"]:
